@@ -4,13 +4,14 @@
      c05.c1p_check  (nc rows perm)       perm = (j ...)                   -> bool
      c05.c1p_core   (nc rows ridx cols)  submatrix certificate of a negative verdict -> bool
      c05.sets_decide (F) / c05.sets_check (F result)   the contract of reorder_sets on a family of index tuples
+     c05.pq_reorder (elems F)   the mirrored reorder_sets; elems = the iteration order of set().union( *sets )
      c05.X_decide   (alts ballots)       X in ci cei vi vei wsc de part part2 -> bool
      c05.X_check    (alts ballots w)     w = candidate order / ballot order / partition (list of lists)
      c05.de_check   (alts ballots (vpr ap))   vpr = (((num den) (num den)) ...)  ap = ((alt (num den)) ...)
      c05.model_part / c05.model_part2 (alts ballots) -> () | (parts)      the mirrored is_part / is_2_part
      c05.de_construct (alts ballots order) -> bool   de_check of the code's construction on that order *)
 From Coq Require Import List ZArith NArith QArith String.
-From PrefVerif Require Import Lib.Val Model.C1P Model.Approval.
+From PrefVerif Require Import Lib.Val Model.C1P Model.Approval Model.PQTree.
 Import ListNotations.
 Open Scope string_scope.
 
@@ -32,6 +33,12 @@ Definition op_c1p_core (v : val) : val :=
 Definition d_sets (v : val) : list (list nat) := dlist (dlist dnat) v.
 Definition op_sets_decide (v : val) : val := ebool (sets_decide (d_sets (dnth 0 v))).
 Definition op_sets_check (v : val) : val := ebool (sets_check (d_sets (dnth 0 v)) (d_sets (dnth 1 v))).
+
+(* the mirrored PQ-tree: (elems F) -> (0 ordering) | (1 code) *)
+Definition op_pq_reorder (v : val) : val :=
+  eresult (elist (elist enat)) (pq_reorder (dlist dnat (dnth 0 v)) (d_sets (dnth 1 v))).
+
+Definition op_pq_inv (v : val) : val := ebool (pq_inv (dlist dnat (dnth 0 v)) (d_sets (dnth 1 v))).
 
 Definition dec2 (f : list N -> list (list N) -> bool) (v : val) : val :=
   ebool (f (d_alts (dnth 0 v)) (d_ballots (dnth 1 v))).
@@ -55,6 +62,7 @@ Definition e_parts (o : option (list (list N))) : val := eoption (elist (elist e
 Definition ops : optable :=
   [ ("c05.c1p_decide", op_c1p_decide); ("c05.c1p_check", op_c1p_check);
     ("c05.c1p_core", op_c1p_core);
+    ("c05.pq_reorder", op_pq_reorder); ("c05.pq_inv", op_pq_inv);
     ("c05.sets_decide", op_sets_decide); ("c05.sets_check", op_sets_check);
     ("c05.ci_decide", dec2 ci_decide);   ("c05.ci_check", chk_alt ci_check);
     ("c05.cei_decide", dec2 cei_decide); ("c05.cei_check", chk_alt cei_check);
